@@ -47,9 +47,10 @@ def claim_window_finished_workflow(sig, ctx) -> bool:
 
 
 def claim_window_before_stage(sig, ctx) -> bool:
-    """Crash between the claim commit of a stage and its plan commit when the builder adds BEFORE children and
-    the stage has predefined tasks: recovery sees RUNNING + start_time + NOT_STARTED tasks and pushes StartTask
-    (before-stage skipped) or starts parent task and child concurrently; the run ends wedged or with another outcome."""
+    """Crash while a stage is RUNNING with predefined, untouched tasks and its BEFORE children are not finished yet
+    (from its claim commit until the last before-child completes): recovery sees RUNNING + start_time + NOT_STARTED
+    tasks and pushes StartTask - the before-stage is skipped or runs concurrently with the parent's task; the run
+    ends wedged or with another outcome."""
     if ctx["formula"] not in sig["formulas"]:
         return False
     prog = ctx["program"]
@@ -70,10 +71,8 @@ def claim_window_before_stage(sig, ctx) -> bool:
             sd = next(x for x in prog["stages"] if x["ref"] == p)
             tasks_untouched = all(s["tk"].get(t["name"], {}).get("status") == "NOT_STARTED" for t in sd["tasks"])
             kids = [k["ref"] for k in prog["stages"] if k["parent"] == p and k["owner"] == "BEFORE"]
-            kids_pending = any(k not in s["st"] or s["st"][k]["status"] == "NOT_STARTED" for k in kids)
-            no_start_msg = not any(m["typ"] in ("StartTask",) and m["s"] == p for m in s["q"]) and \
-                not any(m["typ"] == "StartStage" and m["s"] in kids for m in s["q"])
-            if tasks_untouched and kids_pending and no_start_msg:
+            kids_pending = any(k not in s["st"] or s["st"][k]["status"] in ("NOT_STARTED", "RUNNING") for k in kids)
+            if tasks_untouched and kids_pending:
                 return True
     return False
 
